@@ -3638,3 +3638,127 @@ twin('C11-twin-contiguity-guard-nested', 'C11',
        "        if len(delta) != 1 or delta[0] != 1:\n"
        "            raise RuntimeError(\n"
        "                \"p-value worker was passed non-consecutive pairs\")\n")])
+
+# ======================================================================
+# rules added after the eighth seeding round
+# ======================================================================
+_GU = P+'gene_id/utils.py'
+_OUT = P+'utils/output_utils.py'
+mutant('C05-single-row-range-not-rebased', 'C05',
+       'a one-row range returns the raw pointer slice',
+       [(_SU, "    these_indices = indices[index0:index1]\n"
+         "    this_data = data[index0:index1]\n"
+         "    return this_data, these_indices, these_ptrs-these_ptrs.min()\n",
+         "    these_indices = indices[index0:index1]\n"
+         "    this_data = data[index0:index1]\n"
+         "    if len(these_ptrs) == 2:\n"
+         "        return this_data, these_indices, these_ptrs\n"
+         "    return this_data, these_indices, these_ptrs-these_ptrs.min()\n")],
+       'R-SAMEVAL/pointers-rebased', '_load_sparse')
+twin('C05-twin-rebase-by-first-pointer', 'C05',
+     'pointers re-based by subtracting the first one',
+     [(_SU, "    return this_data, these_indices, these_ptrs-these_ptrs.min()\n",
+       "    return this_data, these_indices, these_ptrs-these_ptrs[0]\n")])
+mutant('C09-ge1-threshold-widened', 'C09',
+       'ge1 counts cells above 1 - 0.05',
+       [(_ST, "    eps = 1.0e-6  # for float comparisons\n",
+         "    eps = 0.05  # for float comparisons\n")],
+       'R-ARITH/count-thresholds', 'ge1')
+twin('C09-twin-thresholds-inlined', 'C09',
+     'thresholds written as literals',
+     [(_ST, "    result['gt0'] = (data > zero_cutoff).sum(axis=0)\n"
+       "    result['gt1'] = (data > one_cutoff).sum(axis=0)\n",
+       "    result['gt0'] = (0.0 < data).sum(axis=0)\n"
+       "    result['gt1'] = (data > 1.0).sum(axis=0)\n")])
+mutant('C20-module-path-only-if-inside-package', 'C20',
+       'module path made relative only when it lies under the package',
+       [(_OUT, "    module = pathlib.Path(module_file).relative_to(ctm_parent)\n",
+         "    module = pathlib.Path(module_file)\n"
+         "    if str(module).startswith(str(ctm_parent)):\n"
+         "        module = module.relative_to(ctm_parent)\n")],
+       'R-MUST/module-relative', 'get_execution_metadata')
+mutant('C04-two-workers-special-cased', 'C04',
+       'statistics stage takes another path for exactly two workers',
+       [(_PA, "        if n_processors <= 1:\n\n            _process_chunk_spec(\n",
+         "        if n_processors <= 1 or (n_processors == 2\n"
+         "                                 and len(work_load) == 1):\n\n"
+         "            _process_chunk_spec(\n")],
+       'R-PROV/worker-count-special-case', 'n_processors == 2')
+mutant('C15-flag-false-for-unvoted-single-child', 'C15',
+       'front end flags a level False when the record lacks runner-ups',
+       [(P+'type_assignment/election_runner.py',
+         "            cell[level]['directly_assigned'] = True\n",
+         "            cell[level]['directly_assigned'] = (\n"
+         "                'runner_up_assignment' in cell[level])\n")],
+       'R-SAMEVAL/flag-per-level', 'run_type_assignment_on_h5ad')
+mutant('C16-ensembl-pattern-prefix-match', 'C16',
+       'Ensembl test matches a prefix of the identifier',
+       [(_GU, "    match = is_ensembl.pattern.fullmatch(gene_id)\n",
+         "    match = is_ensembl.pattern.match(gene_id)\n")],
+       'R-IDIOM/ensembl-pattern', 'fullmatch')
+twin('C16-twin-ensembl-pattern-character-class-dot', 'C16',
+     'version separator written as a character class',
+     [(_GU, "r'ENS[A-Z]+[0-9]+(\\.[0-9]+)?'", "r'ENS[A-Z]+[0-9]+([.][0-9]+)?'")])
+mutant('C19-iterator-finaliser-guarded-by-try', 'C19',
+       'row iterator finaliser drops errors of a handle close placed before the release',
+       [(_AI, "    def __del__(self):\n        if self.tmp_dir is not None:\n"
+         "            _clean_up(self.tmp_dir)\n",
+         "    def __del__(self):\n        if self.tmp_dir is not None:\n"
+         "            try:\n"
+         "                self._chunk_iterator.h5_handler.close()\n"
+         "                _clean_up(self.tmp_dir)\n"
+         "            except Exception:\n"
+         "                pass\n")],
+       'R-PAIR/tempdir/finaliser', 'AnnDataRowIterator.__del__')
+twin('C19-twin-iterator-finaliser-release-first', 'C19',
+     'finaliser releases the directory first, then closes in a try',
+     [(_AI, "    def __del__(self):\n        if self.tmp_dir is not None:\n"
+       "            _clean_up(self.tmp_dir)\n",
+       "    def __del__(self):\n        if self.tmp_dir is not None:\n"
+       "            _clean_up(self.tmp_dir)\n"
+       "            try:\n"
+       "                self._chunk_iterator.h5_handler.close()\n"
+       "            except Exception:\n"
+       "                pass\n")])
+mutant('C11-t-test-on-expressed-genes-only', 'C11',
+       'p-values computed for the genes with non-zero variance only',
+       [(_SCO, "    pvalues = diffexp_p_values(\n"
+         "                mean1=stats_1['mean'],\n"
+         "                var1=stats_1['var'],\n",
+         "    keep = stats_1['var'] > 0\n"
+         "    pvalues = diffexp_p_values(\n"
+         "                mean1=stats_1['mean'][keep],\n"
+         "                var1=stats_1['var'],\n")],
+       'R-ARITH/holm-counts-all-genes', 'inputs')
+mutant('C12-filled-pairs-by-row-number', 'C12',
+       'filled pairs reported by their row among the parent\'s pairs',
+       [(_SL, "        pair_batch = np.array(\n"
+         "            [taxonomy_idx_array[pair_idx]\n"
+         "             for pair_idx in newly_full[0]])\n",
+         "        pair_batch = np.array(newly_full[0])\n")],
+       'R-SAMEVAL/count-columns', 'pair-index')
+twin('C12-twin-signs-by-arithmetic', 'C12',
+     'column -> sign written as 2 * column - 1',
+     [(_SL, "        sign_batch = np.array(\n"
+       "            [{0: -1, 1: 1}[raw_sign]\n"
+       "             for raw_sign in newly_full[1]])\n",
+       "        sign_batch = 2*newly_full[1]-1\n")])
+mutant('C08-parents-listed-in-sorted-order', 'C08',
+       'all_parents returns the parents sorted',
+       [(_TT, "                parent = (level, node)\n"
+         "                parent_list.append(parent)\n"
+         "        return parent_list\n",
+         "                parent = (level, node)\n"
+         "                parent_list.append(parent)\n"
+         "        return parent_list[:1] + sorted(parent_list[1:])\n")],
+       'R-PROV/deepest-first', 'all_parents')
+mutant('C06-normalisation-in-whole-blocks', 'C06',
+       'in-place normalisation done for whole blocks of rows only',
+       [(_CBG, "            self._data = np.log2(1.0+convert_to_cpm(self.data))\n",
+         "            out = np.zeros(self.data.shape, dtype=float)\n"
+         "            for ib in range(max(1, self.n_cells//5000)):\n"
+         "                out[ib*5000:ib*5000+5000, :] = np.log2(\n"
+         "                    1.0+convert_to_cpm(\n"
+         "                        self.data[ib*5000:ib*5000+5000, :]))\n"
+         "            self._data = out\n")],
+       'R-TILE/whole-axis', 'to_log2CPM_in_place')
